@@ -126,6 +126,21 @@ def cases(rng, tier):
             p["j"] = rng.randint(-m, m - 1)
             p["jform"] = rng.choice(["int", "int", "int64", "int32", "intp"])      # the column as a Python int or a numpy integer scalar
             p["rsel"] = rng.choice([{"t": "all"}, {"t": "slice", "a": None, "b": None, "k": -1}])
+            longer = [i for i in range(r) if lens[i] > m]
+            if cls == "ragged" and longer and rng.random() < 0.5:
+                # only the LONGER rows are selected (list, mask or a slice over a run of them) and the column exists in all of
+                # them -- though not in every row of the array
+                sel_rows = sorted(rng.sample(longer, rng.randint(1, len(longer))))
+                m_sel = min(lens[i] for i in sel_rows)
+                p["j"] = rng.choice([rng.randint(m, m_sel - 1), -rng.randint(m + 1, m_sel)])
+                how = rng.choice(["list", "mask", "list_perm"])
+                if how == "list":
+                    p["rsel"] = {"t": "list", "is": sel_rows}
+                elif how == "list_perm":
+                    pr = list(sel_rows); rng.shuffle(pr)
+                    p["rsel"] = {"t": "list", "is": [i if rng.random() < 0.7 else i - r for i in pr]}
+                else:
+                    p["rsel"] = {"t": "mask", "bs": [i in sel_rows for i in range(r)]}
         elif f == "col_range":
             for _ in range(30):
                 a = rng.choice([None] + list(range(-w, w + 1))); b = rng.choice([None] + list(range(-w, w + 1)))
@@ -203,6 +218,10 @@ def _build(p):
 def _norm(x):
     from npstructures import RaggedArray, RunLengthArray
     if hasattr(x, "to_array") and not isinstance(x, np.ndarray):
+        n = getattr(x, "size", 0)
+        if isinstance(n, (int, np.integer)) and n > 20_000_000:
+            # an absurdly long result computed from a small operand: described, not decoded (decoding would exhaust memory)
+            return {"huge_result": int(n)}
         x = x.to_array()
     if isinstance(x, RaggedArray):
         return [[_n(v) for v in r] for r in x.tolist()]
